@@ -196,10 +196,15 @@ func (s *Store) Append(d Series) {
 	for _, st := range s.series {
 		if labels.Equal(st.lbls, l) {
 			// copy-on-write so that iterators handed out earlier keep their view
-			nt := append(append([]int64{}, st.t...), d.T...)
+			// like a TSDB, the storage rejects samples that are not newer than the series' last
+			nt := append([]int64{}, st.t...)
 			nv := append([]float64{}, st.v...)
-			for _, v := range d.V {
-				nv = append(nv, float64(v))
+			for i, t := range d.T {
+				if len(nt) > 0 && t <= nt[len(nt)-1] {
+					continue
+				}
+				nt = append(nt, t)
+				nv = append(nv, float64(d.V[i]))
 			}
 			st.t, st.v = nt, nv
 			return
